@@ -493,8 +493,18 @@ func (p *Parser) parseDict() (core.Object, error) {
 
 // skipWhitespace advances past PDF whitespace characters.
 func (p *Parser) skipWhitespace() {
-	for p.pos < len(p.data) && isWhitespace(p.data[p.pos]) {
-		p.pos++
+	for p.pos < len(p.data) {
+		c := p.data[p.pos]
+		if isWhitespace(c) {
+			p.pos++
+		} else if c == '%' {
+			// A comment runs to the end of the line and counts as whitespace
+			for p.pos < len(p.data) && p.data[p.pos] != '\n' && p.data[p.pos] != '\r' {
+				p.pos++
+			}
+		} else {
+			break
+		}
 	}
 }
 
